@@ -55,6 +55,10 @@ def scenarios(draw):
         sc['rbp'] = draw(st.booleans())
         sc['rerr_at'] = draw(st.one_of(st.none(), st.none(), st.integers(0, max(0, sc['m']))))
         sc['resp_limit'] = draw(st.sampled_from([1, 2, MAXN]))
+    if model in ('fnf', 'mp'):
+        # the application does not look at the result of a one-way request (no subscribe): it is sent all the same, as with
+        # the core API, where the frame goes out when the call is made
+        sc['drop_result'] = draw(st.booleans())
     if model == 'setup':
         # the delegate may refuse the connection by raising from on_setup (authentication): the peer has to be told
         sc['reject'] = draw(st.booleans())
@@ -284,6 +288,9 @@ def build_rx(sc, version):
         elif model == 'mp':
             obs = client.metadata_push(m or b'mp')
         else:
+            return
+        if sc.get('drop_result') and model in ('fnf', 'mp'):
+            world.ev('c', 'rx_result_dropped', model=model)
             return
         rec.disposable = obs.subscribe(rx_observer(M, rec))
         if getattr(rec, 'pending_dispose', False):
